@@ -69,7 +69,7 @@ def run(ctx, chk):
         where = "%s:%d" % (f.file, f.line)
         bi, si = f.param_index("buffer"), f.param_index("buffer_size")
         BUF, SIZE = ("arg", bi), ("arg", si)
-        for k, pa in enumerate(cache.get(name)):
+        for k, pa in enumerate(cache.get(name, inline_static=True)):
             st = pa.st
             W = None
             results = []
